@@ -93,6 +93,10 @@ def parseCall (tok : String) : Option (Op × Option Int) :=
         | _, _ => none
       op.map (·, ret)
 
+/-- the step function of the code the translator saw (`chewing_free` removing the registry entry or not) -/
+def stepNow (c : Ctx) (op : Op) : Outcome (Ctx × Res) :=
+  if freeRemoves == 1 then step c op else stepOld c op
+
 /-- replay a history: first disagreement / undefined step, or `ok` -/
 def replay (c : Ctx) (i : Nat) : List String → String
   | [] => "ok"
@@ -101,7 +105,7 @@ def replay (c : Ctx) (i : Nat) : List String → String
     | none => s!"parse@{i}:{tok}"
     | some (op, ret) =>
       if !heapOk c op then s!"heap@{i}:{tok}"
-      else match step c op with
+      else match stepNow c op with
         | .ub site => s!"ub@{i}:{site}"
         | .ok (c', r) =>
           match ret with
@@ -115,7 +119,7 @@ def usesInvalid (c : Ctx) : List String → Option Bool
     match parseCall tok with
     | none => none
     | some (op, _) =>
-      match step c op with
+      match stepNow c op with
       | .ub _ => some true
       | .ok (c', _) => usesInvalid c' rest
 
